@@ -24,7 +24,7 @@ typedef int ec_t;              /* boost::system::error_code as an integer */
 /* vacuity build: every marked point must be reachable, i.e. this must FAIL */
 #define VERIF_COVER(id) __CPROVER_assert(0, "reach:" #id)
 /* only the returns of the function under contract are probed */
-#define VERIF_COVER_IN(fn, id) do { if (VERIF_FNID_##fn == VERIF_VACUITY_FN) __CPROVER_assert(0, "reach:" #id); } while (0)
+#define VERIF_COVER_IN(fn, id) if (VERIF_FNID_##fn == VERIF_VACUITY_FN) __CPROVER_assert(0, "reach:" #id)
 #else
 #define VERIF_COVER(id)
 #define VERIF_COVER_IN(fn, id)
@@ -120,6 +120,11 @@ static inline void str_push_back(str_t *s, char c) {
   g_buf[s->off + (long)s->n] = c;
   s->n++;
 }
+static inline void str_resize(str_t *s, unsigned long k) {
+  MODEL_LIMIT(s->off + (long)k <= (long)g_n && k <= 0x7ffffffful, "room behind the string in the ghost buffer (resize)");
+  s->n = k;     /* bytes gained by growth are left arbitrary (libstdc++ zero-fills) */
+}
+static inline char *str_data(const str_t *s) { return g_buf + s->off; }
 static inline const char *str_at(const str_t *s, unsigned long i) {
   MODEL_PRE(i <= s->n, "string[i] requires i <= size()");
   MODEL_FAIL_RET(i <= s->n, &g_dummy);
@@ -217,6 +222,35 @@ static inline long it_distance(it_t a, it_t b) { return b - a; }
 #define DEF_PAIR(NAME, A, B) \
   typedef struct { A first; B second; } NAME; \
   static inline NAME NAME##_make(A a, B b) { NAME r; r.first = a; r.second = b; return r; }
+
+/* std::vector<T>: element array + length; iterators are element pointers.
+ * Growth beyond VEC_CAP elements is a limit of the MODEL (run UNDECIDED), not
+ * of the library.  Operations that shift elements have loops bounded by the
+ * length (proved with the harness' capacity and unwinding assertions). */
+#ifndef VEC_CAP
+#define VEC_CAP 8
+#endif
+#define DEF_VEC(NAME, T) \
+  typedef struct { T *data; unsigned long n; } NAME; \
+  static inline unsigned long NAME##_size(const NAME *v) { return v->n; } \
+  static inline _Bool NAME##_empty(const NAME *v) { return v->n == 0; } \
+  static inline T *NAME##_back(NAME *v) { MODEL_PRE(v->n > 0, "vector::back requires !empty()"); return &v->data[v->n - 1]; } \
+  static inline T *NAME##_front(NAME *v) { MODEL_PRE(v->n > 0, "vector::front requires !empty()"); return &v->data[0]; } \
+  static inline void NAME##_pop_back(NAME *v) { MODEL_PRE(v->n > 0, "vector::pop_back requires !empty()"); v->n--; } \
+  static inline T *NAME##_begin(NAME *v) { return v->data; } \
+  static inline T *NAME##_end(NAME *v) { return v->data + v->n; } \
+  static inline T *NAME##_at(NAME *v, unsigned long i) { MODEL_PRE(i < v->n, "vector[i] requires i < size()"); return &v->data[i]; } \
+  static inline void NAME##_push_back(NAME *v, T x) { MODEL_LIMIT(v->n < VEC_CAP, "vector capacity of the model"); v->data[v->n] = x; v->n++; } \
+  static inline void NAME##_clear(NAME *v) { v->n = 0; } \
+  static inline T *NAME##_erase(NAME *v, T *it) { \
+    MODEL_PRE(v->data <= it && it < v->data + v->n, "vector::erase requires a dereferenceable iterator of this vector"); \
+    for (T *k = it; k + 1 < v->data + v->n; k++) *k = *(k + 1); \
+    v->n--; return it; } \
+  static inline T *NAME##_insert(NAME *v, T *it, T x) { \
+    MODEL_PRE(v->data <= it && it <= v->data + v->n, "vector::insert requires an iterator of this vector"); \
+    MODEL_LIMIT(v->n < VEC_CAP, "vector capacity of the model"); \
+    for (T *k = v->data + v->n; k > it; k--) *k = *(k - 1); \
+    *it = x; v->n++; return it; }
 
 /* std::lower_bound over a pointer range, libstdc++'s bisection
  * (bits/stl_algobase.h __lower_bound).  Its precondition (range partitioned
